@@ -148,6 +148,7 @@ func initSyncIntrinsics() {
 			w = &wgState{}
 			syncSt.wg[p] = w
 		}
+		sched.touch(commuting{w})
 		w.n += asInt64(args[1])
 		if w.n < 0 {
 			panic(targetPanicMsg("sync: negative WaitGroup counter"))
